@@ -76,7 +76,22 @@ def gen_set(rng):
     wide = [it for it in items if it[0] == "range" and ord(it[2]) - ord(it[1]) > 30]
     for it in wide[1:]:
         items.remove(it)
+    while set_width(items) > 160 and len(items) > 1:
+        items.remove(max(items, key=lambda it: set_width([it])))
     return ("set", neg, tuple(items))
+
+
+def set_width(items):
+    """how many characters a set lists (one alternative each in the library's rewriting)"""
+    n = 0
+    for it in items:
+        if it[0] == "range":
+            n += ord(it[2]) - ord(it[1]) + 1
+        elif it[0] == "short":
+            n += {"\\d": 10, "\\s": 6, "\\w": 63}.get(it[1], 90)
+        else:
+            n += 1
+    return n
 
 
 def gen_atom(rng):
@@ -110,6 +125,8 @@ def expansion(t):
         return expansion(t[1]) + expansion(t[2])
     if k == "grp":
         return expansion(t[1])
+    if k == "set" and set_width(t[2]) > 100:
+        return 6            # a wide set under a two-digit bound: 150 alternatives copied ten times exhaust the reader
     return 1
 
 
